@@ -33,10 +33,10 @@ def phys(prog, pt):
     return (x + prog['offset'][0], y + prog['offset'][1])
 
 
-def build(prog):
-    """construct the drawing with the library's own symbol classes"""
+def build(prog, into=None):
+    """construct the drawing with the library's own symbol classes (into an existing drawing if given)"""
     from CircuitCalculator.SimpleCircuit import Elements as elm
-    d = elm.Schematic(unit=prog['unit'], show=False)
+    d = into if into is not None else elm.Schematic(unit=prog['unit'], show=False)
     placed = []
     with d:
         for s in prog['symbols']:
